@@ -59,7 +59,9 @@ class C20(Prop):
             return object()
         name = b["name"]
         if rep in ("table", "frame"):
-            return Table(pd.DataFrame({"c": [k, k + 1]}), name=name, units=["-"], transposed=b["transposed"])
+            # column labels that shadow attributes of a data frame ("name", "index", "shape") must not matter
+            col = ["c", "name", "index", "shape", "T"][k % 5]
+            return Table(pd.DataFrame({col: [k, k + 1]}), name=name, units=["-"], transposed=b["transposed"])
         if rep == "json":
             return {"name": name, "destinations": {"all": None}, "columns": {"c": {"unit": "-", "values": [k]}}}
         cell0 = "**" + name + ("*" if b["transposed"] else "")
